@@ -7,11 +7,12 @@
        containers are empty; stored => the target containers hold exactly the value / the error.
    With the chain of done channels: while something is stored every resolve goroutine has finished. *)
 From Util Require Import Common.Base Common.ListLemmas RefCount.Model RefCount.Spec RefCount.Proofs RefCount.ProofsC08 RefCount.ProofsC08b
-  RefCount.ProofsC09 RefCount.ProofsC10 RefCount.ProofsC10a RefCount.ProofsC10b RefCount.ProofsMon RefCount.ProofsMon3 RefCount.ProofsMon5.
+  RefCount.ProofsC09 RefCount.ProofsC10 RefCount.ProofsC10a RefCount.ProofsC10b RefCount.ProofsCodec RefCount.ProofsMon RefCount.ProofsMon2 RefCount.ProofsMon3
+  RefCount.ProofsMon4 RefCount.ProofsMon5 RefCount.ProofsMon6 RefCount.ProofsMon7 RefCount.ProofsMonG RefCount.ProofsMon10.
 Open Scope nat_scope.
 
 Definition vofc (c : bool) (g : nat) : nat := if c then 7 else S g.
-Definition val_okc (c : bool) (g v er : nat) : Prop := v = vofc c g \/ (v = 0 /\ er <> 0).
+Definition val_okc (c : bool) (g v er : nat) : Prop := v = vofc c g \/ v = 0.
 Definition wfc_ev (c : bool) (e : ev) : Prop :=
   match e with EResReturn g v hr er => val_okc c g v er /\ er <> 1 | _ => True end.
 
@@ -102,8 +103,8 @@ Proof.
   - intros _. rewrite C9, C10, C11, C12. destruct (resolved s) eqn:Er.
     + destruct (V1 eq_refl) as [Ev1 _]. destruct (V3 eq_refl) as [T1 T2].
       split; [reflexivity|]. split; [reflexivity|]. split.
-      * destruct (Nat.eqb_spec (value s) 0) as [E0|E0]; [|reflexivity]. destruct Ev1 as [Ev1|[_ Ee]]; [exfalso; rewrite Ev1 in E0; exact (vofc_nz c _ E0)|].
-        apply (T2 Ee).
+      * destruct (Nat.eqb_spec (value s) 0) as [E0|E0]; [|reflexivity].
+        destruct (Nat.eq_dec (verr s) 0) as [Ee|Ee]; [destruct (T1 Ee) as [T _]; congruence | apply (T2 Ee)].
       * destruct (Nat.eqb_spec (verr s) 0) as [E0|E0]; [apply (T1 E0) | reflexivity].
     + exact (V2 eq_refl).
   - intros Hr. congruence.
@@ -288,4 +289,214 @@ Proof.
   apply Forall_app in Hw. destruct Hw as [Hw He]. inversion He; subst. rewrite run_app.
   apply step_InvLt; [assumption | apply run_chain | now apply IH].
 Qed.
+
+(* ------------------------------------------------------------------ *)
+(* a resolve goroutine of the current generation that has not finished: there are a context and a reference *)
+Definition InvLc (s : st) : Prop :=
+  forall g, g < length (gs s) -> gnonce (getg s g) = nonce s -> gdone (getg s g) = false -> kctx s <> 0 /\ nrefs s > 0.
+
+Lemma nf_getg s s' i : nf s' = nf s -> gnonce (getg s' i) = gnonce (getg s i) /\ length (gs s') = length (gs s) /\ nonce s' = nonce s.
+Proof.
+  unfold nf. intros H. pose proof (f_equal fst H) as H1. pose proof (f_equal snd H) as H2. cbn [fst snd] in H1, H2. split; [|split; [|exact H1]].
+  - unfold getg. change (gnonce gor0) with (gnonce gor0). rewrite <- !(map_nth gnonce). now rewrite H2.
+  - rewrite <- (map_length gnonce (gs s')), H2. apply map_length.
+Qed.
+
+Lemma InvLc_frame s s' :
+  kctx s' = kctx s -> nrefs s' = nrefs s -> nf s' = nf s -> (forall i, gdone (getg s' i) = false -> gdone (getg s i) = false) -> InvLc s -> InvLc s'.
+Proof.
+  intros E1 E2 E3 E4 H g Hg Hn Hd. destruct (nf_getg s s' g E3) as [A [B C]]. rewrite E1, E2. apply (H g); [lia | congruence | now apply E4].
+Qed.
+
+Lemma InvLc_none s : (forall i, i < length (gs s) -> gnonce (getg s i) < nonce s) -> InvLc s.
+Proof. intros HB g Hg Hn. specialize (HB g Hg). lia. Qed.
+
+Lemma InvLc_start_resolve c s : InvLt c s -> InvLc (start_resolve s).
+Proof.
+  intros H. unfold start_resolve. destruct (InvLt_shutdown c s H) as [_ [HB _]]. set (s1 := shutdown s) in *. clearbody s1.
+  destruct (Nat.eqb_spec (kctx s1) 0) as [Ek|Ek]; cbn [orb]; [now apply InvLc_none|].
+  destruct (Nat.eqb_spec (nrefs s1) 0) as [En|En]; [now apply InvLc_none|].
+  intros g Hg Hn Hd. change (kctx s1 <> 0 /\ nrefs s1 > 0). split; [exact Ek | lia].
+Qed.
+
+Lemma InvLc_resolved c s : InvCh s -> InvLt c s -> resolved s = true -> InvLc s.
+Proof.
+  intros HCh [HN [_ HV]] Er g Hg Hn Hd. exfalso.
+  assert (Hx : nth_error (gs s) g = Some (getg s g)) by (unfold getg; now apply nth_error_nth').
+  rewrite (pending_unresolved_c c s g _ HCh HN HV Hx Hd) in Er. discriminate.
+Qed.
+
+Lemma chain_ext s s' : gs s' = gs s -> waitch s' = waitch s -> InvCh s -> InvCh s'.
+Proof. apply InvCh_ext. Qed.
+
+Lemma InvLc_remove_ref c s r : InvCh s -> InvLt c s -> InvLc s -> InvLc (remove_ref s r).
+Proof.
+  intros HCh HL H. unfold remove_ref. destruct (nth_error (refs s) r) as [x|] eqn:Ex; [|exact H]. destruct (rin x) eqn:Ein; [|exact H].
+  set (y := {| rin := false; rflag := rflag x; rkind := rkind x; rlast := rlast x |}).
+  pose proof (nrefs_set_nth s r x y Ex) as NR. rewrite Ein in NR. cbn [b2n rin y] in NR.
+  set (s1 := set_refs s (set_nth (refs s) r y)) in *.
+  assert (HL1 : InvLt c s1) by (apply (InvLt_ext c s); [reflexivity | exact HL]).
+  assert (HC1 : InvCh s1) by (apply (InvCh_ext s); auto).
+  destruct (Nat.eqb_spec (nrefs s1) 0) as [E0|E0]; cbn [andb].
+  - destruct (negb (keep s1) || negb (resolved s1) || negb (Nat.eqb (verr s1) 0)) eqn:Ec.
+    + destruct (InvLt_shutdown c s1 HL1) as [_ [HB _]]. now apply InvLc_none.
+    + apply (InvLc_resolved c); auto. apply orb_false_iff in Ec. destruct Ec as [Ec _]. apply orb_false_iff in Ec. destruct Ec as [_ Ec].
+      now apply negb_false_iff in Ec.
+  - intros g Hg Hn Hd. destruct (H g Hg Hn Hd) as [A B]. split; [exact A | lia].
+Qed.
+
+Lemma InvLc_add_ref c s k : InvLt c s -> InvLc s -> InvLc (add_ref repaired s k).
+Proof.
+  intros HL H. unfold add_ref. fold (newref k). pose proof (nrefs_addref s k) as NR. set (s1 := set_refs s (refs s ++ [newref k])) in *.
+  assert (H1 : InvLc s1) by (intros g Hg Hn Hd; destruct (H g Hg Hn Hd) as [A B]; split; [exact A | lia]).
+  assert (HL1 : InvLt c s1) by (apply (InvLt_ext c s); [reflexivity | exact HL]).
+  destruct (Nat.eqb (nrefs s1) 1 && negb (resolved s1)); [now apply (InvLc_start_resolve c)|].
+  destruct (resolved s1); [|exact H1].
+  assert (Inv : forall r n, InvLc (invoke s1 r n)).
+  { intros r n. apply (InvLc_frame s1); [| | apply nf_rest, rest_invoke | | exact H1].
+    - apply (rest_fields s1 _ (rest_invoke s1 r n)).
+    - unfold nrefs. apply rview_nrefs, rview_invoke.
+    - intros i. unfold getg. destruct (rest_fields s1 _ (rest_invoke s1 r n)) as [_ [_ [_ [_ [_ [_ [_ [_ [_ [_ [_ [_ [E _]]]]]]]]]]]]]. now rewrite E. }
+  destruct k; cbn [fx_nilcb repaired]; try exact H1; apply Inv.
+Qed.
+
+Lemma gdone_setg_back s g x p i :
+  nth_error (gs s) g = Some x -> gdone x = false -> gdone (getg (setg s g (with_gpc x p)) i) = false -> gdone (getg s i) = false.
+Proof.
+  intros Hx Hnd H. destruct (getg_nth_error s g x Hx) as [Eg Hl]. destruct (Nat.eq_dec i g) as [->|Hne]; [now rewrite Eg|].
+  now rewrite getg_setg_other in H.
+Qed.
+
+Lemma InvLc_setpc s g x p : nth_error (gs s) g = Some x -> gdone x = false -> InvLc s -> InvLc (setg s g (with_gpc x p)).
+Proof.
+  intros Hx Hnd H. apply (InvLc_frame s); try reflexivity; [now apply (nf_setg s g x) | intros i; now apply (gdone_setg_back s g x p) | exact H].
+Qed.
+
+Lemma InvLc_proceed s g en : InvLc s -> InvLc (proceed repaired s g en).
+Proof.
+  intros H. unfold proceed. destruct (nth_error (gs s) g) as [x|] eqn:Ex; [|exact H].
+  assert (M : forall p, gdone x = false -> InvLc (setg s g (with_gpc x p))) by (intros p Hnd; now apply InvLc_setpc).
+  destruct (gpcv x) eqn:Ep; try exact H.
+  - assert (Hnd : gdone x = false) by (unfold gdone; now rewrite Ep).
+    destruct (gwait x); [|now apply M]. destruct (pred_done s x && gcanc x); [destruct en; now apply M|].
+    destruct (pred_done s x); [now apply M|]. destruct (gcanc x); cbn [fx_wait repaired]; now apply M.
+  - assert (Hnd : gdone x = false) by (unfold gdone; now rewrite Ep).
+    destruct (pred_done s x || gcanc x); [|exact H].
+    destruct (gwait x); [|now apply M]. destruct (pred_done s x && gcanc x); [destruct en; now apply M|].
+    destruct (pred_done s x); [now apply M|]. destruct (gcanc x); cbn [fx_wait repaired]; now apply M.
+  - assert (Hnd : gdone x = false) by (unfold gdone; now rewrite Ep).
+    destruct (pred_done s x); [now apply M | exact H].
+Qed.
+
+Lemma step_InvLc c s e : InvCh s -> InvLt c s -> InvLc s -> InvLc (step repaired s e).
+Proof.
+  intros HCh HL H. destruct e as [c0|k|r|a|g|a|g en|g v hr er|g|k|c0|c0|c0|c0 res|c0]; cbn [step].
+  - unfold set_context. destruct (Nat.eqb (kctx s) c0); [exact H|]. cbn [fst]. apply (InvLc_start_resolve c). apply (InvLt_ext c s); [reflexivity | exact HL].
+  - now apply (InvLc_add_ref c).
+  - destruct (rkind (nth r (refs s) ref0)); try exact H;
+      (apply (InvLc_frame s); [apply (kfr_fields _ _ (kfr_release_call_by s r None)) | apply nrefs_vw, vw_release_call_by | apply nf_release_call_by
+                              | intros i; unfold getg, release_call; now rewrite (cf_release_call_by gs) by reflexivity | exact H]).
+  - unfold release_section. destruct (nth_error (relacts s) a) as [x|]; [|exact H]. destruct (ra_pc x); [|exact H].
+    set (sa := set_relacts s _).
+    assert (E : InvLc (remove_ref sa (ra_ref x))).
+    { apply (InvLc_remove_ref c); [apply (InvCh_ext s); auto | apply (InvLt_ext c s); [reflexivity | exact HL] | exact H]. }
+    set (s1 := remove_ref sa (ra_ref x)) in *. destruct (ra_cons x) as [c1|]; [|exact E]. destruct (cpcv (getc s1 c1)); exact E.
+  - destruct (nth_error (gs s) g) as [x|]; [|exact H]. unfold released_section.
+    destruct (Nat.eqb (nonce s) (gnonce x)); [now apply (InvLc_start_resolve c) | exact H].
+  - unfold async_section. destruct (nth_error (asyncs s) a) as [x|]; [|exact H]. destruct (as_pc x); [|exact H].
+    unfold released_section. set (sa := set_asyncs s _). destruct (Nat.eqb (nonce sa) (as_nonce x)); [|exact H].
+    apply (InvLc_start_resolve c). apply (InvLt_ext c s); [reflexivity | exact HL].
+  - now apply InvLc_proceed.
+  - unfold resolver_return. destruct (nth_error (gs s) g) as [x|] eqn:Ex; [|exact H]. destruct (gpcv x) eqn:Ep; try exact H.
+    apply InvLc_setpc; auto. unfold gdone. now rewrite Ep.
+  - (* store *)
+    destruct (nth_error (gs s) g) as [x|] eqn:Ex; [|unfold store; now rewrite Ex].
+    destruct (gpcv x) eqn:Ep; try (unfold store; rewrite Ex, Ep; exact H).
+    assert (Hnd : gdone x = false) by (unfold gdone; now rewrite Ep).
+    destruct (store_gs_nonce s g x v hasrel e Ex Ep) as [EG EN].
+    pose proof (kfr_store s g) as K. destruct (kfr_fields _ _ K) as [K1 _].
+    pose proof (proj1 (fp_vw s _ (fp_container s (EStore g) I))) as V. cbn [step] in V.
+    apply (InvLc_frame s); [exact K1 | now apply nrefs_vw | apply nf_store | | exact H].
+    intros i Hd. unfold getg in Hd. rewrite EG in Hd. exact (gdone_setg_back s g x GDone i Ex Hnd Hd).
+  - unfold start_consumer. apply (InvLc_add_ref c); [apply (InvLt_ext c s); [reflexivity | exact HL] | exact H].
+  - apply (InvLc_frame s); [apply (kfr_fields _ _ (kfr_cons_step s c0)) | apply nrefs_vw, vw_cons_step | apply (cf_cons_step nf); reflexivity
+                           | intros i; unfold getg; now rewrite gs_cons_step | exact H].
+  - destruct (nth_error (conss s) c0); exact H.
+  - unfold fire_section. destruct (nth_error (conss s) c0) as [x|]; [|exact H]. destruct (ww_firepc x) as [[|]|]; try exact H.
+    apply (InvLc_remove_ref c); [apply (InvCh_ext s); auto | apply (InvLt_ext c s); [reflexivity | exact HL] | exact H].
+  - apply (InvLc_frame s); [apply (kfr_fields _ _ (kfr_cb_return repaired s c0 res)) | apply nrefs_vw, vw_cb_return | apply (cf_cb_return nf); reflexivity
+                           | intros i; unfold getg; now rewrite (cf_cb_return gs) by reflexivity | exact H].
+  - destruct (Nat.eqb c0 0); [exact H|]. destruct (cancel_root_kfr s c0) as [K1 _]. destruct (cancel_root_frame s c0) as [E1 _].
+    apply (InvLc_frame s); [exact K1 | unfold nrefs; now rewrite E1 | apply nf_cancel_root | | exact H].
+    intros i. apply (cancel_root_ind (fun s0 => gdone (getg s0 i) = false -> gdone (getg s i) = false)); [|auto].
+    intros s0 og IH Hd. apply IH. destruct (cancel_g_gs s0 og) as [_ GF]. destruct (GF i) as [_ [_ [Ep _]]]. unfold gdone in *. now rewrite <- Ep.
+Qed.
+
+Theorem run_InvLc c k es : Forall (wfc_ev c) es -> InvLc (run repaired (init k) es).
+Proof.
+  induction es as [|e es IH] using rev_ind; intros Hw; [intros g Hg; cbn in Hg; lia|].
+  apply Forall_app in Hw. destruct Hw as [Hw He]. rewrite run_app.
+  apply (step_InvLc c); [apply run_chain | now apply run_InvLt | now apply IH].
+Qed.
+
+(* ------------------------------------------------------------------ *)
+(* reachable codec states, any configuration *)
+Definition HRc (h : hst) : Prop := exists k es, hs h = run repaired (init k) es /\ Forall (wfc_ev (hconst h)) es.
+
+Lemma res_ok_wfc c g er z : res_ok er z = true -> val_okc c (n2n g) (res_val c g z) (n2n er) /\ n2n er <> 1.
+Proof.
+  unfold res_ok, res_val. intros H. apply andb_true_iff in H. destruct H as [H1 H2]. apply negb_true_iff in H1.
+  split.
+  - destruct (N.eqb_spec z 0) as [Ez|Ez]; [left; unfold vofc; destruct c; reflexivity | right; reflexivity].
+  - intros E. apply N.eqb_neq in H1. apply H1. apply N2Nat.inj. exact E.
+Qed.
+
+Lemma dec_wfc h e e0 rets : dec h e e0 rets -> wfc_ev (hconst h) e0.
+Proof.
+  intros Hd. destruct Hd; try exact I.
+  - exact (res_ok_wfc (hconst h) g er 0%N H1).
+  - exact (res_ok_wfc (hconst h) g er z H1).
+Qed.
+
+Lemma internal_wfc c e : internal_ev e -> wfc_ev c e.
+Proof. destruct e; cbn; auto; contradiction. Qed.
+
+Lemma HRc_step h e e0 rets : HRc h -> dec h e e0 rets -> HRc (fst (fin_of h (step repaired (hs h) e0) rets)).
+Proof.
+  intros [k [es [Es Hw]]] Hd. unfold fin_of. cbn [fst]. unfold HRc. cbn [hs hconst].
+  destruct (settle_run (step repaired (hs h) e0)) as [es2 [E2 F2]].
+  exists k, (es ++ e0 :: es2). split.
+  - rewrite run_app2, <- Es, run_cons. exact E2.
+  - apply Forall_app. split; [exact Hw|]. constructor; [exact (dec_wfc h e e0 rets Hd)|].
+    eapply Forall_impl; [|exact F2]. apply internal_wfc.
+Qed.
+
+Lemma HRc_mid h e e0 rets : HRc h -> dec h e e0 rets ->
+  HRc {| hs := step repaired (hs h) e0; hrel := length (rellog (step repaired (hs h) e0)); hconst := hconst h |}.
+Proof.
+  intros [k [es [Es Hw]]] Hd. unfold HRc. cbn [hs hconst]. exists k, (es ++ [e0]). split.
+  - now rewrite run_app, <- Es.
+  - apply Forall_app. split; [exact Hw|]. constructor; [exact (dec_wfc h e e0 rets Hd) | constructor].
+Qed.
+
+Lemma HRc_init cfg h : hinit cfg = Some h -> HRc h.
+Proof.
+  unfold hinit. intros H. destruct cfg as [|k [|c [|? ?]]]; try discriminate; inversion H; subst h; unfold HRc; cbn [hs hconst];
+    eexists _, []; (split; [reflexivity | constructor]).
+Qed.
+
+Lemma HR_HRc h : HR h -> hconst h = false -> HRc h.
+Proof.
+  intros [[k [es [Es Hw]]] _] Hc. exists k, es. split; [exact Es|]. rewrite Hc. eapply Forall_impl; [|exact (Hw Hc)]. apply wf_ev_wfc.
+Qed.
+
+Lemma HRc_lt h : HRc h -> InvLt (hconst h) (hs h).
+Proof. intros [k [es [-> Hw]]]. now apply run_InvLt. Qed.
+Lemma HRc_lc h : HRc h -> InvLc (hs h).
+Proof. intros [k [es [-> Hw]]]. now apply (run_InvLc (hconst h)). Qed.
+Lemma HRc_chain h : HRc h -> InvCh (hs h).
+Proof. intros [k [es [-> _]]]. apply run_chain. Qed.
+Lemma HRc_L5 h : HRc h -> L5 (hs h).
+Proof. intros [k [es [-> _]]]. apply run_L5. Qed.
 Print Assumptions run_InvLt.
+Print Assumptions run_InvLc.
